@@ -357,7 +357,7 @@ def run(ctx):
                 "exact_elD": [], "exact_thD": []}
     # exact integer certificates L*A_Z = d*I (statement over the REALS); heavier: small types only
     if ctx.tier == "thorough":
-        plan.update({"exactR_mass": [n for n in allt if E[n]["nPe"] <= 10], "exactR_th2": [n for n in allt if E[n]["nPe"] <= 10],
+        plan.update({"exactR_mass": [n for n in allt if n != "HEXA27"], "exactR_th2": [n for n in allt if E[n]["nPe"] <= 10 or n in ("PRISM15", "PRISM18")],
                      "exactR_el2": [n for n in ("TRI3", "TRI6", "QUAD4", "QUAD8", "TETRA4", "PRISM6", "HEXA8") if n in E]})
     else:
         plan.update({"exactR_mass": [n for n in ("SEG2", "SEG3", "SEG4", "TRI3", "TRI6", "QUAD4", "TETRA4", "PRISM6") if n in E],
